@@ -66,7 +66,7 @@ type GenOpts struct {
 
 var RejectFamilies = []string{
 	"unknown-converter", "reverse-without-arg", "non-struct-operand", "syntax-error",
-	"unresolved-type", "no-interface", "bad-literal", "bad-style", "gomod-lagging",
+	"unresolved-type", "no-interface", "bad-literal", "bad-style", "gomod-lagging", "qualifier-by-package-name",
 }
 
 type genMethod struct {
@@ -525,6 +525,16 @@ func GenWorld(r *Rng, opts GenOpts, variantCount int) *WorldSpec {
 			intfs[0].methods[0].notations = []string{":literal " + defs[0].fields[0].name + " )("}
 		case "bad-style":
 			intfs[0].methods[0].notations = append(intfs[0].methods[0].notations, ":style sideways")
+		case "qualifier-by-package-name":
+			// a notation qualifies its function with the name the imported package
+			// DECLARES (codec), which neither the last element of the import path
+			// (.../codec/v2) nor a local alias spells; a sibling file imports another
+			// package of that name, under an alias, whose function has another shape
+			imp("", "example.com/w/codec/v2")
+			localBlock += "type Coded struct {\n\tID int64\n}\n\ntype CodedOut struct {\n\tID string\n}\n\nvar _ = codec.Encode\n\n"
+			gi := genIntf{name: "CodecConv", marked: true}
+			gi.methods = append(gi.methods, genMethod{name: "CodedToOut", notations: []string{":conv codec.Encode ID"}, sig: "CodedToOut(*Coded) (*CodedOut, error)"})
+			intfs = append(intfs, gi)
 		case "gomod-lagging":
 			// the user's go.mod lags behind the imports: a replace without the require
 			imp("", "example.com/dep/kinds")
@@ -690,6 +700,11 @@ func GenWorld(r *Rng, opts GenOpts, variantCount int) *WorldSpec {
 	w.Files["elsewhere/notes.txt"] = "an unrelated working directory\n"
 	w.Files["mod/"+strings.TrimPrefix(dir, "mod/")+"/sub/keep.txt"] = "existing sub-directory inside the package\n"
 
+	if opts.Reject == "qualifier-by-package-name" {
+		w.Files["mod/codec/v2/codec.go"] = "// Package codec, second major version: encoding can fail.\npackage codec\n\nimport \"strconv\"\n\nfunc Encode(id int64) (string, error) {\n\treturn strconv.FormatInt(id, 36), nil\n}\n"
+		w.Files["mod/legacy/codec/codec.go"] = "package codec\n\nimport \"strconv\"\n\nfunc Encode(id int64) string {\n\treturn strconv.FormatInt(id, 10)\n}\n"
+		w.Files[dir+"/zz_legacy_codec.go"] = "package " + pkgName + "\n\nimport oldcodec \"example.com/w/legacy/codec\"\n\n// EncodeLegacy keeps the old wire format available.\nvar EncodeLegacy = oldcodec.Encode\n"
+	}
 	if opts.Reject == "gomod-lagging" {
 		w.Files["mod/go.mod"] = "module example.com/w\n\ngo 1.19\n\nreplace example.com/dep => ../outside/dep\n"
 		w.Files["outside/dep/go.mod"] = "module example.com/dep\n\ngo 1.19\n"
